@@ -290,6 +290,24 @@ def native_replay(crate, features, harness, test_src):
     return repro, outs
 
 
+def enumerate_playback_tests(harness, spec, limit=256):
+    """Concrete-playback tests for EVERY assignment of a harness whose symbolic inputs are tiny."""
+    import itertools
+    fn = harness.split("::")[-1]
+    doms = [range(hi) for (_nb, hi) in spec]
+    total = 1
+    for d in doms:
+        total *= len(d)
+    if total > limit:
+        return None
+    out = []
+    for k, vals in enumerate(itertools.product(*doms)):
+        vecs = ", ".join("vec![" + ", ".join(str(b) for b in int(v).to_bytes(nb, "little")) + "]" for v, (nb, _hi) in zip(vals, spec))
+        out.append(f"#[test]\nfn kani_concrete_playback_{fn}_enum{k}() {{\n    let concrete_vals: Vec<Vec<u8>> = vec![{vecs}];\n"
+                   f"    kani::concrete_playback_run(concrete_vals, {fn});\n}}\n")
+    return "\n".join(out)
+
+
 def write_replay_file(prop, crate, features, harness, test_src, desc):
     d = os.path.join(ROOT, "replay", prop)
     os.makedirs(d, exist_ok=True)
@@ -402,8 +420,13 @@ def run_property(prop, tier, jobs, only, seed, timeout_override=0):
             extra_cex.append(entry)
         elif verdict == "cex":
             log(f"  counterexample in {h}: {reason}")
-            # trace generation for the playback is much slower than the verdict itself
-            hn, test_src = playback_for(r["crate"], r["features"], h, max(3 * per_h_timeout, 2700), mem_gb)
+            spec = P.native_inputs(fn)
+            test_src = enumerate_playback_tests(h, spec) if spec else None
+            if test_src:
+                entry["replay_mode"] = "all assignments of the harness's (tiny) symbolic input space, run natively"
+            else:
+                # trace generation for the playback is much slower than the verdict itself
+                hn, test_src = playback_for(r["crate"], r["features"], h, max(3 * per_h_timeout, 2700), mem_gb)
             if not test_src:
                 entry["verdict"] = "inconclusive"
                 entry["reason"] = "solver reported a failure but no concrete playback could be produced (trace generation timed out?): " + reason
